@@ -168,8 +168,8 @@ def ok_line(line):
     if "\t" in line or "\n" in line or "!!" in line or "\r" in line:
         return False
     import re
-    if re.search(r"\$[0-9@{]", line) or re.search(r"\$\{[0-9@]", line):
-        return False
+    if re.search(r"\$[0-9@]", line) or re.search(r"\$\{[0-9@]", line):
+        return False      # positional parameters mean different things by construction
     return all(ord(c) >= 32 for c in line)
 
 
@@ -243,6 +243,11 @@ def gen_cases(tier, seed):
             cc = c12.gen_case(rng)
             line = "vp_argv " + " ".join(c12.write_word(w) for w in cc["words"])
             setup["files"] = {p: "" for p in c12.POPS[cc["pop"]]}
+        if rng.random() < 0.3:
+            # the same line with a braced reference somewhere on it (script lines that mention parameters are
+            # handled by a different path than lines that do not)
+            line = "vp_a ${VPQ} ; " + line
+            setup.setdefault("env", {})["VPQ"] = "qv"
         if not ok_line(line):
             continue
         entries = ["script", "function", "source"] + (["pty"] if rng.random() < 0.34 else [])
